@@ -79,6 +79,7 @@ def run(ck):
     ck.run_rule(rule_double_push_flag)
     ck.run_rule(rule_derives)
     ck.run_rule(rule_accessor_wiring)
+    ck.run_rule(rule_derived_predicates)
     ck.run_rule(rule_conversions)
 
 
@@ -613,6 +614,67 @@ def rule_accessor_wiring(ck):
             ck.req(got.get(setter) == {want}, "L11.ctor", "%s:%s" % (cname, setter), b.where(),
                    "%s passes %s to %s instead of Some(parameter #%d)" % (cname, [show(x) for x in got.get(setter, [])], setter, param))
 
+
+
+DERIVED = {
+    # derived predicate -> (Move accessors, BitSetExt getters) it may read `self` through: it answers a question about ONE attribute, so it
+    # is a function of that attribute as stored and of nothing else (a pawn reaching the last rank is not "has a promotion piece")
+    "is_capture": (("capture",), ("capture",)),
+    "is_promotion": (("promotion",), ("promotion",)),
+    "is_castle": (("castle_side",), ("castle_queenside", "castle_kingside")),
+    "is_any_castle": (("castle_side", "is_castle"), ("castle_queenside", "castle_kingside")),
+}
+
+
+def _self_reads(term, allowed, out, via=None):
+    """Occurrences of `self` (param 1) or of its raw word in a term, each tagged with the call it is handed to."""
+    if not isinstance(term, tuple) or not term:
+        return
+    if term == ("param", 1) or term == ("field", ("param", 1), "0"):
+        out.add(via or "<raw bits>")
+        return
+    if term[0] == "call" and isinstance(term[1], str):
+        for a in term[2]:
+            _self_reads(a, allowed, out, term[1])
+        return
+    for x in term[1:]:
+        if isinstance(x, tuple):
+            if x and not isinstance(x[0], str):
+                for y in x:
+                    _self_reads(y, allowed, out, via)
+            else:
+                _self_reads(x, allowed, out, via)
+
+
+def rule_derived_predicates(ck):
+    """L14: is_capture / is_promotion / is_castle / is_any_castle read the move only through the accessor of their own attribute, and the two
+    Option-valued ones answer `is_some` of it (not `is_none`)."""
+    prog = ck.prog
+    pfx = "<u32 as " + TRAIT + ">::"
+    n = 0
+    for pred, (accs, getters) in sorted(DERIVED.items()):
+        b = ck.body(MOVE + "::" + pred, "L14")
+        allowed = {MOVE + "::" + a for a in accs} | {pfx + g for g in getters}
+        reads = set()
+        for p in decision_table(prog, b):
+            for e in p.calls():
+                _self_reads(("call", e[1], e[2]), allowed, reads)
+            for c in p.conds:
+                _self_reads(c[0], allowed, reads)
+            r = p.ret
+            if r is not None:
+                _self_reads(r, allowed, reads)
+        foreign = sorted(r for r in reads if r not in allowed)
+        n += 1
+        ck.req(not foreign and bool(reads & allowed), "L14.reads", pred, b.where(),
+               "Move::%s reads the move through %s: it must be a function of the stored %s attribute alone" % (
+                   pred, ", ".join(x.split("::")[-1] for x in foreign) or "nothing", accs[0]),
+               "reads only %s" % ", ".join(sorted(x.split("::")[-1] for x in reads)))
+        if pred in ("is_capture", "is_promotion"):
+            rt = return_term(prog, b)
+            if rt is not None and rt[0] == "call" and rt[1].startswith("core::option::Option::<T>::is_"):
+                ck.req(rt[1].endswith("::is_some"), "L14.polarity", pred, b.where(), "Move::%s returns %s of the attribute" % (pred, rt[1].split("::")[-1]))
+    ck.floor("L14", n, 4, "derived predicates")
 
 def rule_conversions(ck):
     """Square <-> u8 conversions used by the setters/getters are value-preserving."""
